@@ -290,8 +290,8 @@ theorem instrSections_tail (s : Bytes) : (instrSections s).flatten ++ instrTail 
 def strippedBody (code : Bytes) : Bytes := ((instrSections code).filter (fun s => s ≠ [0xab])).flatten
 
 /-- Core's `SerializeScriptCode` writes the whole undecodable rest of the script: the rest is empty (every push is
-complete), or the failed `GetScriptOp` left its iterator at the end (a lone push opcode in last position, a
-PUSHDATA whose length field is cut short by at most… nothing follows) -/
+complete), or the failed `GetScriptOp` left its iterator at the end of the script — the rest is a push opcode alone, or a
+PUSHDATA1/2/4 opcode with its complete length field and not one byte of payload -/
 def TailWritten (s : Bytes) : Prop := (instrTail s).length ≤ failAdvance (instrTail s)
 
 instance (s : Bytes) : Decidable (TailWritten s) := by unfold TailWritten; infer_instance
